@@ -367,6 +367,85 @@ Theorem C09_wakeup_undrained_spins : forall h runs user sem sz wc tc wfd tfd st 
 Proof. exact wakeup_undrained_spins_E. Qed.
 Print Assumptions C09_wakeup_undrained_spins.
 
+(* ==== the whole iteration (doPendingFunctors), several iterations, "blocks instead of spinning" ======== *)
+(* generated: queueInLoop's wake-up condition = !isInLoopThread() || callingPendingFunctors_ || !looping_;
+   loop() calls doPendingFunctors() after the dispatch loop; doPendingFunctors sets callingPendingFunctors_,
+   swaps the queue into a local vector and runs every element *)
+Theorem C09_queue_facts_generated :
+  (forall a b c, EventLoop_queueInLoop_wake_guard a b c = queue_wakes a b c) /\
+  EventLoop_loop_pending_after_dispatch = true /\ EventLoop_doPendingFunctors_swaps = true.
+Proof. exact (conj queue_wake_link (conj pending_after_dispatch_current doPending_swaps_current)). Qed.
+Print Assumptions C09_queue_facts_generated.
+
+(* one whole iteration from any reachable state: after the batch (C09_stale_within_batch) every functor
+   that is pending when doPendingFunctors starts -- queued before the poll or by a callback of this very
+   batch -- runs in this iteration, once, in order; what the functors queue stays pending; the poller ends
+   in the state the callbacks' and the functors' Channel API calls lead to *)
+Theorem C09_iteration_runs_functors : forall h hq fb runs st sp ready choice pending st1 act,
+  reachEC st sp -> ep_step_current st (Poll ready choice) = Ok (st1, act) ->
+  batch_ok h (map fst act) sp (callbacks_g runs act) ->
+  functors_ok fb (spec_run sp (batch_ops h (callbacks_g runs act)))
+    (pending ++ flat_map (fun ck => hq (fst ck) (snd ck)) (callbacks_g runs act)) ->
+  exists st', ep_loop_iter_full h hq fb runs st ready choice pending =
+      Ok (st', act, callbacks_g runs act,
+          pending ++ flat_map (fun ck => hq (fst ck) (snd ck)) (callbacks_g runs act),
+          functors_queued fb (pending ++ flat_map (fun ck => hq (fst ck) (snd ck)) (callbacks_g runs act))) /\
+    reachEC st' (spec_run (spec_run sp (batch_ops h (callbacks_g runs act)))
+                   (functors_ops fb (pending ++ flat_map (fun ck => hq (fst ck) (snd ck)) (callbacks_g runs act)))).
+Proof. exact iteration_full_E. Qed.
+Print Assumptions C09_iteration_runs_functors.
+
+Theorem C09_iteration_runs_functors_poll : forall h hq fb runs st sp ready choice pending st1 act,
+  reachPC st sp -> pp_step_current st (Poll ready choice) = Ok (st1, act) ->
+  batch_ok h (map fst act) sp (callbacks_g runs act) ->
+  functors_ok fb (spec_run sp (batch_ops h (callbacks_g runs act)))
+    (pending ++ flat_map (fun ck => hq (fst ck) (snd ck)) (callbacks_g runs act)) ->
+  exists st', pp_loop_iter_full_current h hq fb runs st ready choice pending =
+      Ok (st', act, callbacks_g runs act,
+          pending ++ flat_map (fun ck => hq (fst ck) (snd ck)) (callbacks_g runs act),
+          functors_queued fb (pending ++ flat_map (fun ck => hq (fst ck) (snd ck)) (callbacks_g runs act))) /\
+    reachPC st' (spec_run (spec_run sp (batch_ops h (callbacks_g runs act)))
+                   (functors_ops fb (pending ++ flat_map (fun ck => hq (fst ck) (snd ck)) (callbacks_g runs act)))).
+Proof. exact iteration_full_P. Qed.
+Print Assumptions C09_iteration_runs_functors_poll.
+
+(* along ANY run of the loop -- any back-end, callbacks, functors, and external events (wake-ups, timer
+   expirations, readiness changes, tasks queued from other threads) between the iterations -- with the
+   wake-up guard generated from queueInLoop: at every poll a non-empty task queue comes with a non-zero
+   wake-up counter ([pend_inv e p] = p <> [] -> 0 < k_wake e) *)
+Theorem C09_queued_task_wakes : forall S step h hq fb runs eff wfd tfd ins st e p st' e' p' outs,
+  pend_inv e p ->
+  loop_run S step h hq fb runs eff EventLoop_queueInLoop_wake_guard wfd tfd st e p ins = Ok (st', e', p', outs) ->
+  pend_inv e' p' /\ Forall (fun o => pend_inv (fst (fst o)) (snd (fst o))) outs.
+Proof. exact queued_task_wakes_current. Qed.
+Print Assumptions C09_queued_task_wakes.
+
+(* THE LAST SENTENCE OF THE PROPERTY.  In a reachable state with the loop's wake-up and timer channels
+   registered: the kernel has nothing to return -- the poll blocks -- IFF the wake-up counter is zero,
+   the timerfd is not due and no other registered channel with some interest is ready; and then (by the
+   invariant above) no task is queued.  Conversely a queued task puts the wake-up channel into the ready set. *)
+Theorem C09_idle_blocks_iff : forall st sp wc tc wfd tfd e p,
+  reachEC st sp -> loop_channels sp wc tc wfd tfd -> pend_inv e p ->
+  (ep_full st (env_ready wfd tfd e) = [] <->
+     (k_wake e = 0%N /\ k_texp e = 0%N /\ others_quiet sp wc tc e)) /\
+  (ep_full st (env_ready wfd tfd e) = [] -> p = []).
+Proof. exact idle_blocks_iff_E. Qed.
+Print Assumptions C09_idle_blocks_iff.
+
+Theorem C09_idle_blocks_iff_poll : forall st sp wc tc wfd tfd e p choice,
+  reachPC st sp -> loop_channels sp wc tc wfd tfd -> pend_inv e p ->
+  (pp_step_current st (Poll (env_ready wfd tfd e) choice) = Ok (st, []) <->
+     (k_wake e = 0%N /\ k_texp e = 0%N /\ others_quiet sp wc tc e)) /\
+  (pp_step_current st (Poll (env_ready wfd tfd e) choice) = Ok (st, []) -> p = []).
+Proof. exact idle_blocks_iff_P. Qed.
+Print Assumptions C09_idle_blocks_iff_poll.
+
+Theorem C09_queued_task_not_blocked : forall st sp wc tc wfd tfd e p,
+  reachEC st sp -> loop_channels sp wc tc wfd tfd -> pend_inv e p -> p <> [] ->
+  In (wc, POLLIN) (ep_full st (env_ready wfd tfd e)).
+Proof. exact queued_task_not_blocked_E. Qed.
+Print Assumptions C09_queued_task_not_blocked.
+
 (* ==== findings: the full statements are false of the models of the OLD shapes of the code ============== *)
 (* F-1 (fixed bbde8b0): without the index reset re-enabling a removed Channel object takes the update
    branch with a stale slot: assertion failure / out-of-bounds = Fault.  The history meets all
@@ -490,5 +569,21 @@ Proof.
   destruct (run_reachEC w_loop_init ep_init spec0 reachEC_init w_loop_init_ok) as [st [outs [E R]]].
   exists st, outs. split; [exact E|]. split; [exact R|]. split.
   - split; [discriminate|]. split; exists false; vm_compute; reflexivity.
-  - intros e c s H _ N1 N0. destruct c as [|[|c]]; [contradiction|contradiction|]. cbn in H. discriminate.
+  - intros e c s H _ _ N1 N0. destruct c as [|[|c]]; [contradiction|contradiction|]. cbn in H. discriminate.
+Qed.
+
+(* a run of three iterations on the loop's constructor state: the timerfd becomes due; the timer callback
+   queues functor 7, which runs in the same iteration and queues functor 8 (waking the loop); 8 runs in
+   the second iteration; the third poll finds nothing: the loop blocks with an empty queue *)
+Example ex_loop_run : exists st0 outs0,
+  ep_run_current ep_init w_loop_init = Ok (st0, outs0) /\
+  exists stf ef outs,
+    loop_run ep ep_step_current (fun _ _ => []) hq_ex fb_ex all_run (effects_current 1 0 (fun _ _ e => e))
+      EventLoop_queueInLoop_wake_guard 4 3 st0 env0 [] [([XTimer], []); ([], []); ([], [])] = Ok (stf, ef, [], outs) /\
+    map snd outs = [([(0, POLLIN)], [(0, CbRead)], [7]); ([(1, POLLIN)], [(1, CbRead)], [8]); ([], [], [])] /\
+    map (fun o => k_wake (fst (fst o))) outs = [0%N; 1%N; 0%N] /\ k_wake ef = 0%N /\ k_texp ef = 0%N.
+Proof.
+  destruct (run_reachEC w_loop_init ep_init spec0 reachEC_init w_loop_init_ok) as [st0 [outs0 [E R]]].
+  exists st0, outs0. split; [exact E|]. vm_compute in E. injection E as <- <-.
+  eexists _, _, _. split; [vm_compute; reflexivity|]. repeat split; vm_compute; reflexivity.
 Qed.
